@@ -164,4 +164,19 @@ theorem source_tables_and_integer_code :
   · intro er t hs hd ht
     exact src_eval_poly logWalshArr er hlw.1 hs hlw.2 hd t ht
 
+/-- the MULTIPLICATION TABLES of today's source (`Gen/SrcMul.lean`, regenerated by `/verif/translate/rs2lean_mul.py` on
+    every run from `initialize_mul16` / `initialize_mul128`, run on the constructed `exp` / `log` tables): never a
+    panic; every `Mul16` entry `[log_m][k][i]` is the nibble product `(i << 4k) ⊗ g^log_m`, and the 16-byte rows
+    `lo[k]` / `hi[k]` of every `Mul128` entry are exactly `lutLo` / `lutHi` of the multiplier `g^log_m` — the table
+    parameter under which C03's `source_kernels_are_field_butterflies` and `mul_spec` are stated -/
+theorem source_mul_tables :
+    (∃ t, RS.SrcU.U_initialize_mul16 initExpLog.1 initExpLog.2 = some t ∧
+      ∀ logm k i, logm ≤ 65535 → k < 4 → i < 16 →
+        t.getD ((logm * 4 + k) * 16 + i) 0 = (lut16 (fun y => gmul (gexp logm) y) k i).toNat) ∧
+    (∃ lo hi, RS.SrcU.U_initialize_mul128 initExpLog.1 initExpLog.2 = some (lo, hi) ∧
+      ∀ logm k, logm ≤ 65535 → k < 4 →
+        rowOfTable lo logm k = lutLo (fun y => gmul (gexp logm) y) k ∧
+        rowOfTable hi logm k = lutHi (fun y => gmul (gexp logm) y) k) :=
+  src_mul_tables
+
 end RS
